@@ -139,14 +139,18 @@ func coqStream(st *StreamDesc, segIdx []int) string {
 	return fmt.Sprintf("(Build_stream %s\n %s)", coqfmt.List(init), "["+strings.Join(segs, ";\n  ")+"]")
 }
 
-// the MPEG-TS stream as mediacommon's Reader hands it to the stream processor
+// the MPEG-TS stream as mediacommon's Reader sees it: the PMT (supported and unsupported
+// elementary streams) and every PES the demultiplexer completes, track = position in the PMT
 func coqMStream(st *StreamDesc, segIdx []int, em []emitted) string {
 	var tr []string
-	for _, t := range st.Tracks {
-		if t.isVideo() {
-			tr = append(tr, "MH264")
-		} else {
-			tr = append(tr, "MAudio")
+	for _, e := range st.pmt() {
+		switch e.Codec {
+		case "h264":
+			tr = append(tr, "PH264")
+		case "aac":
+			tr = append(tr, "PMPEG4Audio")
+		default:
+			tr = append(tr, "POther")
 		}
 	}
 	var segs []string
@@ -157,11 +161,11 @@ func coqMStream(st *StreamDesc, segIdx []int, em []emitted) string {
 			if e.Seg != k {
 				continue
 			}
-			ps = append(ps, fmt.Sprintf("Build_pes %d%%nat %s %s %d 0 0%%nat", e.Track, zlit(e.RawPTS), zlit(e.RawDTS), e.ID))
+			ps = append(ps, fmt.Sprintf("Build_pes %d%%nat %s %s %s 0 0%%nat", e.PMT, zlit(e.RawPTS), zlit(e.RawDTS), zlit(int64(e.ID))))
 		}
 		segs = append(segs, fmt.Sprintf("Build_msegment %s %s", optZ(sg.HasDate, sg.Date), coqfmt.List(ps)))
 	}
-	return fmt.Sprintf("(Build_mstream %s\n %s)", coqfmt.List(tr), "["+strings.Join(segs, ";\n  ")+"]")
+	return fmt.Sprintf("(Build_pmtStream %s\n %s)", coqfmt.List(tr), "["+strings.Join(segs, ";\n  ")+"]")
 }
 
 func coqE2E(d *Desc, res *runResult, dl [][]int, em [][]emitted) string {
@@ -184,7 +188,7 @@ func coqE2E(d *Desc, res *runResult, dl [][]int, em [][]emitted) string {
 	}
 	ctor := "EF"
 	if d.Kind == "mpegts" {
-		ctor = "EM"
+		ctor = "EP"
 	}
 	return fmt.Sprintf("TE (%s %s\n %s\n %s\n %s %s)", ctor, leading, coqfmt.List(rends), tracks, obs, zlit(outcomeCode(res.Outcome)))
 }
